@@ -263,6 +263,10 @@ def oracle(ctx: C.Ctx, cov: C.Coverage, falsy_bias=0.35, n=None, seed=None) -> L
         f = check_object(obj, {"seed": seed, "index": i, "depth": depth, "falsy_bias": falsy_bias})
         if f and f.sig not in sigs:
             sigs.add(f.sig); out.append(f)
+    for case, group in c03.batches(seed, min(n or ctx.budget(240, 6000), 400), ctx.tier, falsy_bias):
+        f = c03.check_batch(group, case, "xml")
+        if f and f.sig not in sigs:
+            sigs.add(f.sig); out.append(f)
     return out
 
 
@@ -280,4 +284,6 @@ def search(ctx: C.Ctx, disagreements, broken) -> List[C.Failing]:
 
 
 def replay(case) -> Optional[C.Failing]:
+    if "batch" in case:
+        return c03.replay_batch(case, "xml")
     return check_object(regen(case), case)
